@@ -6,7 +6,220 @@ use quote::ToTokens;
 use serde_json::{json, Value};
 use std::path::{Path, PathBuf};
 use syn::visit::{self, Visit};
+use syn::visit_mut::{self, VisitMut};
 use syn::*;
+
+// ---- residual of a cfg(feature = X)-gated statement in a build where X is compiled out --------------------
+// `traits.contains(&Trait::X)` can only be false when the variant Trait::X does not exist; the residual is the
+// statement with that call replaced by `false` and the obvious Boolean / `if` simplifications applied.
+struct Subst<'a> {
+    feature: &'a str,
+    hits: usize,
+}
+
+fn lit_bool(e: &Expr) -> Option<bool> {
+    match e {
+        Expr::Lit(ExprLit { lit: Lit::Bool(b), .. }) => Some(b.value),
+        Expr::Paren(p) => lit_bool(&p.expr),
+        _ => None,
+    }
+}
+
+fn mk_bool(b: bool) -> Expr {
+    if b { parse_quote!(true) } else { parse_quote!(false) }
+}
+
+impl<'a> VisitMut for Subst<'a> {
+    fn visit_expr_mut(&mut self, e: &mut Expr) {
+        visit_mut::visit_expr_mut(self, e);
+        let mut new: Option<Expr> = None;
+        match e {
+            Expr::MethodCall(m) if m.method == "contains" && m.args.len() == 1 => {
+                let recv = m.receiver.to_token_stream().to_string();
+                let arg = m.args[0].to_token_stream().to_string().replace(' ', "");
+                if recv == "traits" && arg == format!("&Trait::{}", self.feature) {
+                    self.hits += 1;
+                    new = Some(mk_bool(false));
+                }
+            }
+            // a map keyed by Trait has no entry for a variant that does not exist; no Trait value equals it
+            Expr::MethodCall(m) if m.method == "get" && m.args.len() == 1 && m.args[0].to_token_stream().to_string().replace(' ', "") == format!("&Trait::{}", self.feature) => {
+                self.hits += 1;
+                new = Some(parse_quote!(None));
+            }
+            Expr::Binary(b) if matches!(b.op, BinOp::Eq(_)) && (b.left.to_token_stream().to_string().replace(' ', "") == format!("Trait::{}", self.feature)
+                || b.right.to_token_stream().to_string().replace(' ', "") == format!("Trait::{}", self.feature)) => {
+                self.hits += 1;
+                new = Some(mk_bool(false));
+            }
+            Expr::Let(l) if l.expr.to_token_stream().to_string() == "None" && l.pat.to_token_stream().to_string().starts_with("Some") => {
+                new = Some(mk_bool(false));
+            }
+            Expr::Unary(u) if matches!(u.op, UnOp::Not(_)) => {
+                if let Some(b) = lit_bool(&u.expr) {
+                    new = Some(mk_bool(!b));
+                }
+            }
+            Expr::Binary(b) => {
+                let (l, r) = (lit_bool(&b.left), lit_bool(&b.right));
+                match b.op {
+                    BinOp::And(_) => {
+                        if l == Some(false) || r == Some(false) {
+                            new = Some(mk_bool(false));
+                        } else if l == Some(true) {
+                            new = Some((*b.right).clone());
+                        } else if r == Some(true) {
+                            new = Some((*b.left).clone());
+                        }
+                    }
+                    BinOp::Or(_) => {
+                        if l == Some(true) || r == Some(true) {
+                            new = Some(mk_bool(true));
+                        } else if l == Some(false) {
+                            new = Some((*b.right).clone());
+                        } else if r == Some(false) {
+                            new = Some((*b.left).clone());
+                        }
+                    }
+                    _ => {}
+                }
+            }
+            _ => {}
+        }
+        if let Some(n) = new {
+            *e = n;
+        }
+    }
+}
+
+fn strip_cfg(attrs: &mut Vec<Attribute>) {
+    attrs.retain(|a| !a.path().is_ident("cfg"));
+}
+
+fn stmt_attrs_mut(st: &mut Stmt) -> Option<&mut Vec<Attribute>> {
+    match st {
+        Stmt::Local(l) => Some(&mut l.attrs),
+        Stmt::Macro(m) => Some(&mut m.attrs),
+        Stmt::Expr(e, _) => expr_attrs_mut(e),
+        Stmt::Item(_) => None,
+    }
+}
+
+fn expr_attrs_mut(e: &mut Expr) -> Option<&mut Vec<Attribute>> {
+    macro_rules! m { ($($v:ident),*) => { match e { $(Expr::$v(x) => Some(&mut x.attrs),)* _ => None } } }
+    m!(Array, Assign, Async, Await, Binary, Block, Break, Call, Cast, Closure, Const, Continue, Field, ForLoop, Group, If, Index, Infer, Let, Lit, Loop, Macro, Match, MethodCall, Paren, Path, Range, Reference, Repeat, Return, Struct, Try, TryBlock, Tuple, Unary, Unsafe, While, Yield)
+}
+
+fn stmt_attrs(st: &Stmt) -> &[Attribute] {
+    match st {
+        Stmt::Local(l) => &l.attrs,
+        Stmt::Macro(m) => &m.attrs,
+        Stmt::Expr(e, _) => expr_attrs(e),
+        Stmt::Item(i) => item_attrs(i),
+    }
+}
+
+fn norm(st: &Stmt) -> String {
+    let mut s = st.to_token_stream().to_string();
+    while s.ends_with(';') || s.ends_with(' ') {
+        s.pop();
+    }
+    s
+}
+
+/// the statements left of `st` (cfg attributes removed) when `Trait::<feature>` cannot be among the requested traits
+fn residual(st: &Stmt, feature: &str) -> (Vec<String>, usize) {
+    let mut st = st.clone();
+    if let Some(a) = stmt_attrs_mut(&mut st) {
+        strip_cfg(a);
+    }
+    let mut sub = Subst { feature, hits: 0 };
+    sub.visit_stmt_mut(&mut st);
+    (simplify_stmt(&st), sub.hits)
+}
+
+fn simplify_stmt(st: &Stmt) -> Vec<String> {
+    let sub = Hits { hits: 0 };
+    if let Stmt::Expr(Expr::Block(b), _) = st {
+        if b.label.is_none() && b.attrs.is_empty() {
+            let inner: Vec<String> = b.block.stmts.iter().flat_map(simplify_stmt).collect();
+            if inner.is_empty() {
+                return vec![];
+            }
+        }
+    }
+    let r = (|| {
+    if let Stmt::Expr(Expr::If(i), _) = st {
+        if let Some(b) = lit_bool(&i.cond) {
+            if !b {
+                return match &i.else_branch {
+                    None => (vec![], sub.hits),
+                    Some((_, e)) => (vec![e.to_token_stream().to_string()], sub.hits),
+                };
+            }
+            return (i.then_branch.stmts.iter().map(norm).collect(), sub.hits);
+        }
+    }
+    (vec![norm(st)], sub.hits)
+    })();
+    r.0
+}
+
+struct Hits {
+    hits: usize,
+}
+
+struct Impure(bool);
+impl<'ast> Visit<'ast> for Impure {
+    fn visit_expr_try(&mut self, _: &'ast ExprTry) { self.0 = true; }
+    fn visit_expr_return(&mut self, _: &'ast ExprReturn) { self.0 = true; }
+    fn visit_expr_macro(&mut self, _: &'ast ExprMacro) { self.0 = true; }
+    fn visit_expr_break(&mut self, _: &'ast ExprBreak) { self.0 = true; }
+    fn visit_expr_continue(&mut self, _: &'ast ExprContinue) { self.0 = true; }
+    fn visit_expr_call(&mut self, _: &'ast ExprCall) { self.0 = true; }
+    fn visit_expr_assign(&mut self, _: &'ast ExprAssign) { self.0 = true; }
+    fn visit_expr_method_call(&mut self, m: &'ast ExprMethodCall) {
+        let n = m.method.to_string();
+        if !matches!(n.as_str(), "is_some" | "is_none" | "is_empty" | "contains" | "len") {
+            self.0 = true;
+        }
+        visit::visit_expr_method_call(self, m);
+    }
+}
+
+fn pure(e: &Expr) -> bool {
+    let mut p = Impure(false);
+    p.visit_expr(e);
+    !p.0
+}
+
+/// Some(names) when the statement does nothing but define / assign the named locals from side-effect-free expressions
+fn local_only(st: &Stmt) -> Option<Vec<String>> {
+    match st {
+        Stmt::Local(l) => {
+            if let Some(init) = &l.init {
+                if init.diverge.is_some() || !pure(&init.expr) {
+                    return None;
+                }
+            }
+            let mut names = vec![];
+            collect_pat_idents(&l.pat, &mut names);
+            Some(names)
+        }
+        Stmt::Expr(Expr::Assign(a), _) => match &*a.left {
+            Expr::Path(p) if p.path.segments.len() == 1 && p.qself.is_none() && pure(&a.right) => Some(vec![p.path.segments[0].ident.to_string()]),
+            _ => None,
+        },
+        Stmt::Expr(Expr::If(i), _) if i.else_branch.is_none() && pure(&i.cond) => {
+            let mut names = vec![];
+            for s in i.then_branch.stmts.iter() {
+                names.extend(local_only(s)?);
+            }
+            Some(names)
+        }
+        _ => None,
+    }
+}
 
 fn cfg_of_meta(m: &Meta) -> Value {
     match m {
@@ -85,6 +298,7 @@ struct Scan {
     method_calls: Vec<Value>,
     dead_stack: Vec<bool>,
     unused_stack: Vec<bool>,
+    gated_stmts: Vec<Value>,
 }
 
 impl Scan {
@@ -302,6 +516,30 @@ impl<'ast> Visit<'ast> for Scan {
         visit::visit_pat_ident(self, p);
     }
 
+    fn visit_block(&mut self, b: &'ast Block) {
+        for (idx, st) in b.stmts.iter().enumerate() {
+            if matches!(st, Stmt::Item(_)) {
+                continue;
+            }
+            let here = cfgs(stmt_attrs(st));
+            if here.is_empty() {
+                continue;
+            }
+            let mut plain = st.clone();
+            if let Some(a) = stmt_attrs_mut(&mut plain) {
+                strip_cfg(a);
+            }
+            let mut residuals = serde_json::Map::new();
+            for f in ["Debug", "Clone", "Copy", "PartialEq", "Eq", "PartialOrd", "Ord", "Hash", "Default", "Deref", "DerefMut", "Into"] {
+                let (r, hits) = residual(st, f);
+                residuals.insert(f.to_string(), json!({"stmts": r, "hits": hits}));
+            }
+            self.gated_stmts.push(json!({"cfg_here": here, "cfg_outer": self.cur(), "line": line(st), "fn": self.fn_stack.last(), "block": line(b), "idx": idx,
+                "tokens": norm(&plain), "residual": residuals, "local_only": local_only(&plain)}));
+        }
+        visit::visit_block(self, b);
+    }
+
     fn visit_stmt(&mut self, st: &'ast Stmt) {
         match st {
             Stmt::Macro(m) => {
@@ -396,13 +634,13 @@ fn scan_file(path: &Path, module: Vec<String>, out: &mut Vec<Value>, root: &Path
             return;
         }
     };
-    let mut s = Scan { stack: vec![], fn_stack: vec![], fn_cfg_stack: vec![], mutations: vec![], items: vec![], uses: vec![], paths: vec![], lets: vec![], variants: vec![], arms: vec![], macro_idents: vec![], item_macros: vec![], bindings: vec![], mods: vec![], assoc_fns: vec![], method_calls: vec![], dead_stack: vec![allows_dead(&file.attrs)], unused_stack: vec![allows_unused(&file.attrs)] };
+    let mut s = Scan { stack: vec![], fn_stack: vec![], fn_cfg_stack: vec![], mutations: vec![], items: vec![], uses: vec![], paths: vec![], lets: vec![], variants: vec![], arms: vec![], macro_idents: vec![], item_macros: vec![], bindings: vec![], mods: vec![], assoc_fns: vec![], method_calls: vec![], gated_stmts: vec![], dead_stack: vec![allows_dead(&file.attrs)], unused_stack: vec![allows_unused(&file.attrs)] };
     s.stack.extend(cfgs(&file.attrs));
     s.visit_file(&file);
     let rel = path.strip_prefix(root).unwrap_or(path).to_string_lossy().to_string();
     out.push(json!({"path": rel, "module": module, "items": s.items, "uses": s.uses, "paths": s.paths, "lets": s.lets, "variants": s.variants,
         "arms": s.arms, "macro_idents": s.macro_idents, "item_macros": s.item_macros, "bindings": s.bindings, "mutations": s.mutations,
-        "assoc_fns": s.assoc_fns, "method_calls": s.method_calls, "file_allow_dead": allows_dead(&file.attrs),
+        "assoc_fns": s.assoc_fns, "method_calls": s.method_calls, "gated_stmts": s.gated_stmts, "file_allow_dead": allows_dead(&file.attrs),
         "mods": s.mods.iter().map(|(n, c, inl, l, d)| json!({"name": n, "cfg": c, "inline": inl, "line": l, "allow_dead": d})).collect::<Vec<_>>()}));
     // follow out-of-line modules
     let dir: PathBuf = if path.file_name().map(|f| f == "lib.rs" || f == "mod.rs").unwrap_or(false) {
